@@ -22,8 +22,11 @@ import (
 
 	ae "github.com/godaddy/asherah/go/appencryption"
 	"github.com/godaddy/asherah/go/appencryption/pkg/crypto/aead"
+	"github.com/godaddy/asherah/go/appencryption/pkg/persistence"
 	pv1 "github.com/godaddy/asherah/go/appencryption/plugins/aws-v1/kms"
 	pv2 "github.com/godaddy/asherah/go/appencryption/plugins/aws-v2/kms"
+
+	"asherahverif/doubles"
 )
 
 // ---------------------------------------------------------------------------------
@@ -451,3 +454,81 @@ func CheckC17(r *Report) {
 }
 
 var _ = ae.AES256KeySize
+
+func persistenceMemory() ae.Metastore { return persistence.NewMemoryMetastore() }
+
+// newPlainFactory is a tracking factory used where no accounting is needed.
+func newPlainFactory() *doubles.TrackFactory { return doubles.NewTrackFactory() }
+
+// c01AWS is C01's mini-run over the AWS KMS plugins: factories that share the metastore and the regional KMS keys
+// but are configured with different regions (or see a region down) must decrypt each other's records.
+func c01AWS(r *Report) {
+	n := 0
+	for _, ver := range []string{"v1", "v2"} {
+		for _, scenario := range []string{"reader-has-only-second-region", "reader-sees-first-region-down", "reader-prefers-second-region"} {
+			n++
+			name := fmt.Sprintf("aws-%s-%s", ver, scenario)
+			bad := func(sig, format string, a ...interface{}) {
+				r.Viols = append(r.Viols, Viol{Property: "C01", Harness: "C01/aws", Sig: sig + "@" + name, Msg: fmt.Sprintf(format, a...), Ops: []string{name}})
+			}
+			resetGlobals()
+			c := newCloud()
+			ms := persistenceMemory()
+			two := []string{"us-west-2", "us-east-1"}
+			writerKMS, err := buildPlugin(ver, c, two, "us-west-2")
+			if err != nil {
+				r.MachineryError = err.Error()
+				return
+			}
+			var readerKMS kmsPlugin
+			switch scenario {
+			case "reader-has-only-second-region":
+				readerKMS, err = buildPlugin(ver, c, []string{"us-east-1"}, "us-east-1")
+			case "reader-prefers-second-region":
+				readerKMS, err = buildPlugin(ver, c, two, "us-east-1")
+			default:
+				readerKMS, err = buildPlugin(ver, c, two, "us-west-2")
+			}
+			if err != nil {
+				r.MachineryError = err.Error()
+				return
+			}
+			mk := func(k kmsPlugin) *ae.SessionFactory {
+				return ae.NewSessionFactory(&ae.Config{Service: "s", Product: "p", Policy: SpecDefault.Build()}, ms, k, aead.NewAES256GCM(), ae.WithSecretFactory(newPlainFactory()))
+			}
+			fw, fr := mk(writerKMS), mk(readerKMS)
+			sw, _ := fw.GetSession("A")
+			pay := []byte("written-in-us-west-2")
+			rec, err := sw.Encrypt(ctx, append([]byte(nil), pay...))
+			if err != nil {
+				bad("aws-encrypt", "encrypt through the %s plugin failed: %v", ver, err)
+				continue
+			}
+			if scenario == "reader-sees-first-region-down" {
+				c.decState["us-west-2"] = 1
+			}
+			sr, _ := fr.GetSession("A")
+			if out, err := sr.Decrypt(ctx, *cloneDRR(rec)); err != nil || !bytes.Equal(out, pay) {
+				bad("aws-cross-region-decrypt", "a factory sharing the metastore and the KMS keys (%s) cannot decrypt the record: %v", scenario, err)
+			}
+			// and back: the reader writes under the same (or a rotated) hierarchy, the writer reads
+			pay2 := []byte("written-by-the-reader")
+			if rec2, err := sr.Encrypt(ctx, append([]byte(nil), pay2...)); err != nil {
+				bad("aws-encrypt-reader", "encrypt by the reader failed: %v", err)
+			} else {
+				c.decState["us-west-2"] = 0
+				if out, err := sw.Decrypt(ctx, *cloneDRR(rec2)); err != nil || !bytes.Equal(out, pay2) {
+					bad("aws-cross-region-decrypt-back", "the writer cannot decrypt the reader's record (%s): %v", scenario, err)
+				}
+			}
+			sw.Close()
+			sr.Close()
+			fw.Close()
+			fr.Close()
+		}
+	}
+	r.Evaluations += 2 * n
+	r.Transitions += int64(2 * n)
+	r.TracesValidated += 2 * n
+	r.Notes = append(r.Notes, "AWS KMS plugins (v1, v2): a writer with regions {us-west-2 preferred, us-east-1} and a reader that has only us-east-1 / prefers us-east-1 / sees us-west-2 down decrypt each other's records")
+}
